@@ -35,7 +35,7 @@ ARITH = ["c*0.5+k", "jnp.sin(c)+1.0", "c+CONST", "c*c*0.25-k", "jnp.where(c>k,c,
          "jnp.maximum(c,k)-0.5", "c*jnp.float32(0.9)+xrow*0.1", "c*0.5+i", "c*0.75-k+i", "c+ydim", "c*0.5-ydim"]
 CONST = np.array([0.25, -1.0, 2.0], np.float32)
 KINDS = ("arith", "seq", "cond", "switch2", "while", "fori", "scan_y", "scan_len", "scan2", "switch3", "scan_rev", "fori_dyn", "while_data",
-         "while2", "scan_rev_len")
+         "while2", "scan_rev_len", "while_cc")
 UNSUPPORTED = ("switch3", "scan_rev", "fori_dyn", "scan_rev_len")
 
 
@@ -59,6 +59,7 @@ def body_strategy(depth, unsupported_p=40):
         st.tuples(st.just("scan_len"), st.sampled_from([0, 1, 3]), sub).map(list),
         st.tuples(st.just("scan2"), sub).map(list),
         st.tuples(st.just("while2"), st.sampled_from(["n", "n-1", "2"]), st.sampled_from(["fib", "rotate", "keep"]), sub).map(list),
+        st.tuples(st.just("while_cc"), st.sampled_from([3.0, 40.0, -1.0]), sub).map(list),
     ]
     unsupported = [
         st.tuples(st.just("switch3"), st.sampled_from(["n", "n-1"]), sub, sub, sub).map(list),
@@ -133,6 +134,17 @@ def run_body(b, c, env):
         (v, _), ys = lax.scan(step_rl, (c, jnp.int32(0)), None, length=b[1], reverse=True)
         w = jnp.arange(1, b[1] + 1, dtype=jnp.float32)[:, None]
         return v + jnp.sum(ys * w, axis=0)  # order-sensitive use of the stacked outputs
+    if t == "while_cc":
+        # the condition and the body each close over a *traced* value, and the two have different shapes:
+        # cond reads the (T,3) matrix y, body reads the (3,) vector k and a (1,) slice of it
+        lim, ymat, kvec = b[1], env["y"], env["k"]
+        tip = kvec[:1] * 0.25
+
+        def bd_cc(st_):
+            v, j = st_
+            return run_body(b[2], v, dict(env, i=j)) * 0.5 + kvec * 0.1 + tip, j + 1
+
+        return lax.while_loop(lambda st_: jnp.logical_and(jnp.sum(st_[0]) < lim + jnp.sum(ymat) * 0.01, st_[1] < 5), bd_cc, (c, jnp.int32(0)))[0]
     if t == "while_data":
         thr = b[1]
 
